@@ -602,6 +602,16 @@ def check_writers(prog, rep):
                         # a helper new to the tree stores on behalf of the reference functions that use it
                         for o_ in prog.owners(f):
                             writers.add(prog.fns[o_].root_fn().path.split("::")[-1] if o_ in prog.fns else f.root_fn().path.split("::")[-1])
+                rv_ = s_["rv"]
+                if rv_["k"] in ("ref", "rawptr") and (rv_.get("mut") or rv_["k"] == "rawptr") and any(isinstance(e, dict) and e.get("f") == fi for e in rv_["place"]["p"]):
+                    # a mutable borrow of the cell array (`self.pixels[..].fill(..)`, `iter_mut()`): a store in disguise
+                    ty = f.body["locals"][rv_["place"]["l"]]["ty"]
+                    fresh = not (isinstance(ty, dict) and "ref" in ty) and rv_["place"]["l"] > f.body["argc"]   # a display this function is building
+                    while isinstance(ty, dict) and "ref" in ty:
+                        ty = ty["ref"]
+                    if isinstance(ty, dict) and ty.get("adt") == MD and not fresh:
+                        for o_ in prog.owners(f):
+                            writers.add(prog.fns[o_].root_fn().path.split("::")[-1] if o_ in prog.fns else f.root_fn().path.split("::")[-1])
                 if s_["rv"]["k"] == "agg" and s_["rv"].get("adt") == MD:
                     ctors.add(f.root_fn().path.split("::")[-1])
     rep.check(writers <= {"set_pixel", "set_pixel_unchecked", "from_pattern"} and writers & {"set_pixel", "set_pixel_unchecked"}, "R20.5", "pixel-writers",
